@@ -215,7 +215,7 @@ func ExecTransport(op string) string {
 			return nil, &net.OpError{Op: "dial", Net: network, Err: syscall.ECONNREFUSED}
 		}
 		mu.Unlock()
-		c, err := net.DialTimeout(network, addr, 2*time.Second)
+		c, err := net.DialTimeout(network, addr, 60*time.Second)
 		if err != nil {
 			return nil, err
 		}
@@ -322,7 +322,7 @@ func ExecTransport(op string) string {
 		req.OutRequest = hr
 		rec.events = nil
 		rec.label = func() string { return label[req.Trans.Backend] }
-		line := vh.SafeTimeout(20*time.Second, func() string {
+		line := vh.SafeTimeout(120*time.Second, func() string {
 			res, action, err := env.ClusterInvoke(req)
 			rsStr := "nil"
 			if res != nil {
